@@ -115,7 +115,14 @@ def apply(eng, f, args, kwargs, st, node=None):
         if NATIVE_MODE[0] and not any(is_z3(a) for a in args) and f.name in NATIVE_UF:
             yield NATIVE_UF[f.name](*args), st          # concrete replay: the spec function has an executable meaning
         else:
-            yield f.node(*[(to_z3(to_num(a) if not is_bool_like(a) else a) if not isinstance(a, str) else enum_const(f.node.domain(i), a)) for i, a in enumerate(args)]), st
+            def _arg(i, a):
+                if not isinstance(a, str):
+                    return to_z3(to_num(a) if not is_bool_like(a) else a)
+                if f.node.domain(i) == kinds.OBJ_SORT:
+                    # a string literal where an object is expected (e.g. a callee's default `comment="#"`): one constant per literal
+                    return z3.Const('strlit!%s' % a.encode('unicode_escape').decode(), kinds.OBJ_SORT)
+                return enum_const(f.node.domain(i), a)
+            yield f.node(*[_arg(i, a) for i, a in enumerate(args)]), st
     else:
         raise OutOfSubset('call kind %s' % f.kind)
 
